@@ -261,6 +261,8 @@ type Exec struct {
 	simLimit   int64
 	simFast    bool
 	simNum     bool
+	simOut     bool
+	simEnd     *Term
 	relMode    bool
 	allocMode  bool
 	sharedTables map[string]bool
